@@ -110,6 +110,12 @@ Theorem C19_print_parse : forall r, wf_expr r -> parse_filter (pr_expr r) = Some
 Proof. exact print_parse. Qed.
 Print Assumptions C19_print_parse.
 
+(* a tag name is a letter followed by letters, digits, underscores (the grammar before fixes/C19-10 had letters only) *)
+Theorem C19_tag_names_alphanumeric :
+  parse_filter tagname_text = Some {| r_first := RAEq [109;111;100;101;108;95;50] (ROConst [97]); r_rest := [] |}.
+Proof. exact tag_names_alphanumeric. Qed.
+Print Assumptions C19_tag_names_alphanumeric.
+
 (* ---- orphans ------------------------------------------------------------- *)
 Theorem C19_orphans_exact : forall w c io k,
   In k (orphans_clean w c io) <->
